@@ -135,3 +135,7 @@ impl<Res> InFlightRequests<Res> {
         })
     }
 }
+
+#[cfg(all(test, tarpc_verif))]
+#[path = "/verif/native_inrepo/client_table.rs"]
+mod verif_native;
